@@ -166,7 +166,15 @@ def flag_discipline(ctx, run_):
         ctx.stats.count("model-flag-discipline-states")
         if restarting:
             continue
-        if ans[2 * i + 1][1:] != "1":
+        if ans[2 * i + 1][2:3] != "1":
+            ctx.stats.count("model-safe-discipline-false")
+            ctx.finding(Finding(PID, "safe-flag-discipline:" + op,
+                                f"after '{kcorr.decode_line(ln)[:100]}' a step that is neither flagged _check_safe nor "
+                                f"below a flagged step does not satisfy its local _safe equation (CacheInvSafeW is false)",
+                                {"requests": [kcorr.decode_line(x) for x in run_.lines[: i + 1]][-15:],
+                                 "protocol_lines": list(run_.lines[: i + 1])}))
+            break
+        if ans[2 * i + 1][1:2] != "1":
             ctx.stats.count("model-strict-discipline-false")  # expected: the code maintains the weak form
         if ans[2 * i + 1][:1] != "1":
             ctx.stats.count("model-flag-discipline-false")
